@@ -321,6 +321,19 @@ class SymEngine:
                 return ("cls", r[1].qual)
             if r[0] == "ext":
                 return ("ext", r[1])
+        # a module-level dict display of constants (a lookup table that is only read): its key / value terms
+        node_ = f.module.const_nodes.get(n) if hasattr(f.module, "const_nodes") else None
+        if isinstance(node_, ast.Dict) and node_.keys and all(k is not None for k in node_.keys):
+            try:
+                pairs = []
+                for k_, v_ in zip(node_.keys, node_.values):
+                    kv, vv = self.P.fold(f.module, k_), self.P.fold(f.module, v_)
+                    if kv is UNKNOWN or vv is UNKNOWN:
+                        raise ValueError
+                    pairs.append((self._const_term(kv), self._const_term(vv)))
+                return ("dict", tuple(pairs))
+            except Exception:
+                pass
         return ("g", n)
 
     def _const_term(self, v):
